@@ -290,7 +290,8 @@ def run_case(case, obs):
             # where the three magnitudes are nothing but rounding residue of currents that cancel (mean below 1e-9 of what the
             # stations carry), the ratio is noise in any implementation: those periods are not compared
             carried = np.array([max(math.fsum(abs(A[names.index(p)][i]) * abs(R[i][t]) for i in range(n)) for p in ph) for t in range(T)])
-            noise = (mean > 0) & (mean < 1e-9 * carried)
+            # (a sum that cancels to exactly 0 in one evaluation order is a few 1e-17 in another: NaN here, 0 there)
+            noise = (carried > 0) & (mean < 1e-9 * carried)
             try:
                 how = rng.random()
                 if how < 0.6:
